@@ -46,6 +46,8 @@ def gen_case(rng, tier):
     cmds.append('search 0 %d 0 %s' % (bits(rng.choice([0.5, 1.0, 10.0])), qtext))
     cmds.append('search 0 %d 1 %s' % (bits(rng.choice([0.5, 1.0, 10.0])), qtext))
     cmds.append('list %d %d' % (rng.choice([0, 0, 1]), rng.choice([0, 2, 5])))
+    # the same search from two callers at once (listing, K-nearest, radius)
+    cmds.append('psearch %s' % rng.choice(['0 0 0 ' + qtext, '%d 0 1 %s' % (rng.choice([1, 3]), qtext), '0 %d 1 %s' % (bits(10.0), qtext)]))
     cmds += ['verify', 'callers', 'maplen']
     # continuation: things that write into, move or drop the mapping
     conts = []
@@ -132,6 +134,9 @@ def judge(cmds, lines, rc, err, final):
                 prov.append('value %s returned by site %s for document %s points into the file mapping' % (f[1], f[2], f[3]))
             if f[7] == '1':
                 prov.append('value %s returned by site %s for document %s shares memory with a slice passed in by a caller' % (f[1], f[2], f[3]))
+        elif f[0] == 'pshared':
+            if f[1] == '1':
+                prov.append('two callers that issued the same search at the same moment were handed metadata in the same memory')
         elif f[0] == 'reading':
             reading = f[1]
         elif f[0] == 'value':
